@@ -1,26 +1,333 @@
 package c16
 
+// The gossip phase (spec/PeerInput/PeerGossip.tla): the reactor starts three goroutines
+// per peer (gossipDataRoutine, gossipVotesRoutine, queryMaj23Routine) that read what the
+// peer ANNOUNCED about itself (the PeerRoundState). They run outside any recover(): a
+// failure there does not drop a peer, it ends the process - and the node's consensus
+// routine with it. Behaviours of the model (the shortest behaviour to every site of death
+// TLC finds in the model of the code as it is, and simulated behaviours of the repaired
+// model) are replayed on a node whose gossip routines are live; the child process must
+// survive, and the PeerRoundState must follow the model.
+
 import (
 	"bufio"
 	"encoding/json"
 	"fmt"
+	"io/ioutil"
+	"math"
+	"math/rand"
 	"os"
+	"strings"
+	"sync/atomic"
+	"time"
+
+	cs "github.com/lianxiangcloud/linkchain/consensus"
+	cstypes "github.com/lianxiangcloud/linkchain/consensus/types"
+	cmn "github.com/lianxiangcloud/linkchain/libs/common"
+	"github.com/lianxiangcloud/linkchain/libs/crypto"
+	"github.com/lianxiangcloud/linkchain/libs/p2p"
+	"github.com/lianxiangcloud/linkchain/libs/ser"
+	"github.com/lianxiangcloud/linkchain/types"
 
 	"verifh/core"
 )
+
+// node classes of PeerGossip.tla -> state classes the harness builds
+var gossipNodeClass = map[string]string{
+	"g-h1-parts":   "h1-parts",
+	"g-h1-commit":  "h1-commit",
+	"g-h1-propose": "h1-propose",
+	"g-h2-propose": "h2-propose",
+	"g-h3-pruned":  "h3-pruned",
+}
+var gossipNodes = []string{"g-h1-parts", "g-h1-commit", "g-h1-propose", "g-h2-propose", "g-h3-pruned"}
+
+// gAct is an action label of PeerGossip.
+type gAct struct {
+	T    string   `json:"t"`
+	H    int      `json:"h"`
+	R    int      `json:"r"`
+	Pol  int      `json:"pol"`
+	Kind string   `json:"kind"`
+	Hdr  string   `json:"hdr"`
+	Ba   []string `json:"ba"`
+	PolR int      `json:"polr"`
+}
+type gPRS struct {
+	H    int      `json:"h"`
+	R    int      `json:"r"`
+	Prop bool     `json:"prop"`
+	Hdr  string   `json:"hdr"`
+	Pbp  []string `json:"pbp"`
+	PolR int      `json:"polr"`
+	Pol  []string `json:"pol"`
+	Ccr  int      `json:"ccr"`
+}
+type gStep struct {
+	A    gAct   `json:"a"`
+	To   gPRS   `json:"to"`
+	Pend string `json:"pend"`
+}
+type gScenario struct {
+	Node  string  `json:"node"`
+	Lead  string  `json:"lead,omitempty"` // site of death the as-is model predicts at the end ("" for a simulated behaviour of the repaired model)
+	Steps []gStep `json:"steps"`
+}
+
+// connectGossipPeer replaces the attacker by a peer whose gossip routines keep running.
+func (r *rig) connectGossipPeer() {
+	if r.peer != nil {
+		atomic.StoreInt32(&r.peer.running, 0) // the previous peer's routines end
+	}
+	p := newMockPeer("attacker")
+	atomic.StoreInt32(&p.running, 1)
+	r.sw.peers = []p2p.Peer{p}
+	r.peer = p
+	r.conR.AddPeer(p)
+}
+
+// gossipRounds waits until the peer has been polled n more times by the gossip routines
+// (each routine polls peer.IsRunning() once per iteration).
+func (r *rig) gossipRounds(n int64, max time.Duration) bool {
+	start := atomic.LoadInt64(&r.peer.polls)
+	deadline := time.Now().Add(max)
+	for atomic.LoadInt64(&r.peer.polls) < start+n {
+		if time.Now().After(deadline) {
+			return false
+		}
+		time.Sleep(100 * time.Microsecond)
+	}
+	return true
+}
+
+// gInst instantiates the abstract messages of PeerGossip.
+type gInst struct {
+	b   *built
+	rng *rand.Rand
+}
+
+func (g *gInst) storedHeader(h uint64) (types.PartSetHeader, bool) {
+	if ps := g.b.node().Mock.Parts[h]; ps != nil {
+		return ps.Header(), true
+	}
+	return types.PartSetHeader{}, false
+}
+
+// nodeHeader is the header of the part set the node is collecting (or, when it collects none, of the
+// honest proposal of its height - nothing compares equal to it then).
+func (g *gInst) nodeHeader() types.PartSetHeader {
+	if ps := g.b.rs().ProposalBlockParts; ps != nil {
+		return ps.Header()
+	}
+	return types.PartSetHeader{Total: 3, Hash: randBytes(g.rng, 32)}
+}
+
+func (g *gInst) ba(tag []string, size int) *cmn.BitArray {
+	if size <= 0 {
+		size = 3
+	}
+	switch strings.Join(tag, "/") {
+	case "nil/nil":
+		return nil
+	case "eq/ok":
+		return cmn.NewBitArray(size) // the peer claims to have nothing: the node will try to send
+	case "gt/ok":
+		return cmn.NewBitArray(size + []int{1, 61, 64, 1000}[g.rng.Intn(4)])
+	case "eq/none":
+		if g.rng.Intn(2) == 0 {
+			return &cmn.BitArray{Bits: size, Elems: []uint64{}}
+		}
+		return &cmn.BitArray{Bits: size}
+	case "gt/few":
+		return &cmn.BitArray{Bits: []int{100000, math.MaxInt64, 65}[g.rng.Intn(3)], Elems: []uint64{0}}
+	case "neg/ok":
+		return &cmn.BitArray{Bits: []int{-1, -5, -65, math.MinInt64 + 1}[g.rng.Intn(4)], Elems: []uint64{0}}
+	}
+	panic("bad bit array tag " + strings.Join(tag, "/"))
+}
+
+func (g *gInst) round(r int) int {
+	if r == sFAR {
+		return g.b.rs().Round + 5 + g.rng.Intn(3)
+	}
+	return r
+}
+
+func (g *gInst) make(a gAct, prsHeight uint64) (ch byte, bz []byte, malformed bool) {
+	var msg cs.ConsensusMessage
+	wf := func(t []string) bool {
+		s := strings.Join(t, "/")
+		return s == "nil/nil" || s == "eq/ok" || s == "gt/ok"
+	}
+	switch a.T {
+	case "nrs":
+		ch = cs.StateChannel
+		steps := []cstypes.RoundStepType{cstypes.RoundStepNewHeight, cstypes.RoundStepPropose, cstypes.RoundStepPrevote, cstypes.RoundStepPrecommit, cstypes.RoundStepCommit}
+		msg = &cs.NewRoundStepMessage{Height: uint64(a.H), Round: g.round(a.R), Step: steps[g.rng.Intn(len(steps))], LastCommitRound: []int{-1, 0}[g.rng.Intn(2)]}
+	case "proposal":
+		ch = cs.DataChannel
+		hdr := g.nodeHeader()
+		switch a.Kind {
+		case "other":
+			hdr = types.PartSetHeader{Total: hdr.Total, Hash: randBytes(g.rng, 32)}
+		case "other-neg":
+			hdr = types.PartSetHeader{Total: []int{-1, -64, math.MinInt64}[g.rng.Intn(3)], Hash: randBytes(g.rng, 32)}
+			malformed = true
+		case "other-big": // more parts than the largest block the consensus parameters allow
+			hdr = types.PartSetHeader{Total: []int{200000, 1 << 20}[g.rng.Intn(2)], Hash: randBytes(g.rng, 32)}
+			malformed = true
+		}
+		p := types.NewProposal(uint64(a.H), g.round(a.R), hdr, a.Pol, types.BlockID{})
+		p.Type = types.ProposalTypeNormal
+		var s crypto.SignatureEd25519
+		g.rng.Read(s[:])
+		p.Signature = s // the reactor's bookkeeping does not verify it
+		msg = &cs.ProposalMessage{Proposal: p}
+	case "commitstep":
+		ch = cs.StateChannel
+		var hdr types.PartSetHeader
+		size := 3
+		switch a.Hdr {
+		case "node":
+			hdr = g.nodeHeader()
+			size = hdr.Total
+		case "stored":
+			if sh, ok := g.storedHeader(prsHeight); ok {
+				hdr, size = sh, sh.Total
+			} else {
+				hdr = types.PartSetHeader{Total: 3, Hash: randBytes(g.rng, 32)}
+			}
+		case "other":
+			hdr = types.PartSetHeader{Total: 3, Hash: randBytes(g.rng, 32)}
+		}
+		msg = &cs.CommitStepMessage{Height: uint64(a.H), BlockPartsHeader: hdr, BlockParts: g.ba(a.Ba, size)}
+		malformed = !wf(a.Ba)
+	case "pol":
+		ch = cs.DataChannel
+		msg = &cs.ProposalPOLMessage{Height: uint64(a.H), ProposalPOLRound: a.PolR, ProposalPOL: g.ba(a.Ba, 4)}
+		malformed = !wf(a.Ba)
+	default:
+		panic("not a message: " + a.T)
+	}
+	return ch, ser.MustEncodeToBytesWithType(msg), malformed
+}
+
+func isGossipStep(t string) bool { return strings.HasPrefix(t, "g-") }
 
 func gossipChild(c *core.Ctx, j job) {
 	w := bufio.NewWriter(os.Stdout)
 	defer w.Flush()
 	res := &jobResult{Class: j.Class, ByEff: map[string]int{}, Latent: map[string]int{}}
-	rj, _ := json.Marshal(res)
-	fmt.Fprintf(w, "RESULT %s\nDONE\n", rj)
+	finish := func() {
+		rj, _ := json.Marshal(res)
+		fmt.Fprintf(w, "RESULT %s\nDONE\n", rj)
+		w.Flush()
+	}
+	data, err := ioutil.ReadFile(j.Edges)
+	if err != nil {
+		res.Infra = err.Error()
+		finish()
+		return
+	}
+	var all []gScenario
+	if err := json.Unmarshal(data, &all); err != nil {
+		res.Infra = "scenario file: " + err.Error()
+		finish()
+		return
+	}
+	node := strings.TrimPrefix(j.Class, "gossip/")
+	b, err := buildClass(gossipNodeClass[node], false)
+	if err != nil {
+		res.Infra = err.Error()
+		finish()
+		return
+	}
+	for k := j.From; k < len(all); k++ {
+		sc := all[k]
+		if sc.Node != node {
+			continue
+		}
+		rng := rand.New(rand.NewSource(c.Seed*104729 + int64(k)))
+		g := &gInst{b: b, rng: rng}
+		sj, _ := json.Marshal(map[string]interface{}{"k": k, "node": node, "lead": sc.Lead, "steps": actsOf(sc)})
+		fmt.Fprintf(w, "AT %s\n", sj)
+		w.Flush()
+		b.connectGossipPeer() // every behaviour starts from a fresh PeerState
+		conform := true
+		deliver := func(st gStep) {
+			prs := b.prs()
+			ch, bz, malformed := g.make(st.A, prs.Height)
+			stops := b.sw.nStopped()
+			rf := b.conR.VerifReceive(ch, b.peer, bz)
+			res.Deliveries++
+			if rf != nil || b.sw.nStopped() > stops {
+				res.ReactorDrop++
+				b.connectGossipPeer() // stopped by the node: the attacker connects again (PeerState starts over)
+			} else if malformed {
+				conform = false // the code as it is keeps the malformed array; the repaired model does not
+			}
+			if conform && sc.Lead == "" {
+				now := b.prs()
+				wantR := st.To.R
+				if wantR == sFAR {
+					wantR = now.Round // any untracked round
+				}
+				if int(now.Height) != st.To.H || (now.Round != wantR) {
+					if len(res.Drift) < 10 {
+						res.Drift = append(res.Drift, fmt.Sprintf("gossip %s behaviour %d: after %+v the PeerRoundState is at %d/%d, the model says %d/%d", node, k, st.A, now.Height, now.Round, st.To.H, st.To.R))
+					}
+					conform = false
+				}
+			}
+		}
+		for i := 0; i < len(sc.Steps); i++ {
+			st := sc.Steps[i]
+			if !isGossipStep(st.A.T) {
+				deliver(st)
+				continue
+			}
+			if st.A.T == "g-data" && st.Pend == "part" && i+1 < len(sc.Steps) && !isGossipStep(sc.Steps[i+1].A.T) {
+				// the model interleaves the next message between the part being sent and SetHasProposalBlockPart:
+				// deliver it from inside the peer's Send, where gossipDataRoutine is exactly there
+				next := sc.Steps[i+1]
+				fired := make(chan struct{})
+				b.peer.arm(func() { deliver(next); close(fired) })
+				select {
+				case <-fired:
+					i++
+				case <-time.After(150 * time.Millisecond):
+					b.peer.arm(nil) // no part was sent (nothing the peer lacks): deliver normally
+					select {
+					case <-fired:
+						i++
+					default:
+					}
+				}
+				b.gossipRounds(3, 300*time.Millisecond)
+				continue
+			}
+			b.gossipRounds(4, 300*time.Millisecond)
+		}
+		if !b.gossipRounds(9, 5*time.Second) {
+			res.Drift = append(res.Drift, fmt.Sprintf("the gossip routines of %s stopped iterating after behaviour %d: %s", node, k, sj))
+		}
+		res.Edges++
+		if sc.Lead != "" {
+			// the as-is model predicts the death of the process here; it survived
+			res.Latent["model lead not reproduced: "+sc.Lead]++
+		}
+		if res.Sample == nil && sc.Lead == "" {
+			res.Sample = map[string]interface{}{"gossip_node_class": node, "behaviour": actsOf(sc)}
+		}
+	}
+	atomic.StoreInt32(&b.peer.running, 0)
+	finish()
 }
 
-func allocChild(c *core.Ctx, j job) {
-	w := bufio.NewWriter(os.Stdout)
-	defer w.Flush()
-	res := &jobResult{Class: j.Class, ByEff: map[string]int{}, Latent: map[string]int{}}
-	rj, _ := json.Marshal(res)
-	fmt.Fprintf(w, "RESULT %s\nDONE\n", rj)
+func actsOf(sc gScenario) []gAct {
+	var out []gAct
+	for _, s := range sc.Steps {
+		out = append(out, s.A)
+	}
+	return out
 }
